@@ -11,7 +11,8 @@ Fixpoint size (e : expr) {struct e} : nat :=
   let sizes := fix sizes (l : list expr) : nat := match l with [] => O | x :: r => (size x + sizes r)%nat end in
   match e with
   | EBin _ x y => S (size x + size y)
-  | ENeg x | ENot x => S (size x)
+  | ENeg x | ENot x | EObj _ _ x => S (size x)
+  | EMenu _ x y => S (size x + size y)
   | ECall _ l | ELCall _ l | EList l | EPList l => S (sizes l)
   | _ => 1%nat
   end.
@@ -41,6 +42,16 @@ Definition head_ok (ts : list tok) : Prop :=
   end.
 Lemma head_ok_app a b : head_ok a -> head_ok (a ++ b).
 Proof. destruct a; simpl; [contradiction|auto]. Qed.
+(* a printed expression never starts with the bare-identifier token *)
+Lemma pp_not_raw en e rest : let ts := strip (pp_tok en e) ++ rest in match ts with TRawInt _ :: _ | TRawConst _ :: _ => False | _ => True end.
+Proof.
+  cbv zeta. destruct e; cbn [pp_tok strip filter app]; try exact I.
+  - destruct (is_sprite_op o); exact I.
+  - destruct args; exact I.
+  - destruct args; exact I.
+  - destruct items; exact I.
+Qed.
+
 Lemma pp_head en e : head_ok (strip (pp_tok en e)).
 Proof.
   destruct e; cbn [pp_tok]; try exact I.
@@ -155,7 +166,8 @@ Fixpoint lists_even (e : expr) {struct e} : Prop :=
   | ENeg x | ENot x => lists_even x
   | ECall _ l | ELCall _ l | EList l => all l
   | EPList l => Nat.even (length l) = true /\ all l
-  | EObj _ _ _ | EMenu _ _ _ => False        (* not in the token language *)
+  | EObj _ _ x => lists_even x
+  | EMenu _ x y => lists_even x /\ lists_even y
   | _ => True
   end.
 Fixpoint lists_even_all (l : list expr) : Prop := match l with [] => True | x :: r => lists_even x /\ lists_even_all r end.
@@ -262,8 +274,34 @@ Proof.
                  ltac:(pose proof (length_sizes l'); pose proof (size_pos k); pose proof (size_pos v); cbn [sizes] in Hf; lia)
                  ltac:(pose proof (size_pos k); cbn [sizes] in Hf; lia)).
       reflexivity.
-  - intros f pid x _ [].
-  - intros pid it mn _ _ [].
+  - (* the <property> of <object> <id> *)
+    intros fam pid x IHx Hx fuel rest Hf Hr. cbn [size] in Hf. cbn [lists_even] in Hx. pose proof (size_pos x).
+    fuelS fuel f.
+    set (operand := fun ts : list tok => match ts with TRawInt n :: r' => Some (EInt n, r') | TRawConst k :: r' => Some (EConst k, r') | _ => parse_u f ts end).
+    assert (Hgen : operand (strip (pp_tok en x) ++ rest) = Some (x, rest)).
+    { unfold operand. pose proof (IHx Hx f rest ltac:(lia) Hr) as E. pose proof (pp_not_raw en x rest) as Hn. cbv zeta in Hn.
+      destruct (strip (pp_tok en x) ++ rest) as [|t0 ts0]; [exact E|]. destruct t0; try exact E; contradiction. }
+    assert (Hraw : operand (strip (raw_or x (pp_tok en x)) ++ rest) = Some (x, rest)).
+    { destruct x; try exact Hgen; reflexivity. }
+    unfold operand in Hgen, Hraw.
+    cbn [pp_tok]. rewrite !strip_app. cbn [strip filter app].
+    unfold strip in Hgen, Hraw.
+    destruct fam; cbn [raw_fam strip filter app parse_u]; first [rewrite Hraw | rewrite Hgen]; reflexivity.
+  - (* the <property> of menuItem <id> of menu <id> *)
+    intros pid it mn IHi IHm [Hi Hm] fuel rest Hf Hr. cbn [size] in Hf. pose proof (size_pos it). pose proof (size_pos mn).
+    fuelS fuel f.
+    set (operand := fun ts : list tok => match ts with TRawInt n :: r' => Some (EInt n, r') | TRawConst k :: r' => Some (EConst k, r') | _ => parse_u f ts end).
+    assert (Hop : forall x r0, P en x -> lists_even x -> (3 * size x <= f)%nat -> rest_ok r0 ->
+                   operand (strip (raw_or x (pp_tok en x)) ++ r0) = Some (x, r0)).
+    { intros x r0 HPx Hlx Hfx Hr0.
+      assert (Hgen : operand (strip (pp_tok en x) ++ r0) = Some (x, r0)).
+      { unfold operand. pose proof (HPx f r0 Hfx Hr0) as E. pose proof (pp_not_raw en x r0) as Hn. cbv zeta in Hn.
+        destruct (strip (pp_tok en x) ++ r0) as [|t0 ts0]; [exact E|]. destruct t0; try exact E; contradiction. }
+      destruct x; try exact Hgen; reflexivity. }
+    unfold operand in Hop.
+    cbn [pp_tok]. rewrite !strip_app. cbn [strip filter app]. repeat rewrite <- app_assoc. cbn [app parse_u].
+    erewrite (Hop it); [| exact (IHi Hi) | exact Hi | lia | exact I].
+    erewrite (Hop mn rest); [reflexivity | exact (IHm Hm) | exact Hm | lia | exact Hr].
   - intros _. constructor.
   - intros x l IHx IHl [Hx Hl]. constructor; [exact (IHx Hx) | exact (IHl Hl)].
 Qed.
